@@ -301,6 +301,10 @@ class Report:
             cov['samples'] = ['(no sample recorded)']
         rc = 0
         os.makedirs(os.path.join(VERIF, 'replays', self.prop), exist_ok=True)
+        for note in self.notes:
+            # what the run could not do as planned (a translator that does not recognise the source, a private helper
+            # that was renamed, reviewer examples that no longer elaborate): visible, never a verdict
+            print('NOTE %s: %s' % (self.prop, str(note)[:300]))
         for key, what in self.known_hit:
             print('KNOWN-FINDING: property=%s %s' % (self.prop, what))
         for key, what, replay, found in self.violations:
